@@ -321,7 +321,13 @@ func proxyHook(req *http.Request) (*url.URL, error) {
 	if req.GetBody != nil {
 		rc, err := req.GetBody()
 		if err == nil {
-			raw, _ = io.ReadAll(rc)
+			if req.ContentLength > 0 {
+				raw = make([]byte, req.ContentLength)
+				n, _ := io.ReadFull(rc, raw)
+				raw = raw[:n]
+			} else {
+				raw, _ = io.ReadAll(rc)
+			}
 			rc.Close()
 		}
 	}
@@ -983,7 +989,7 @@ func genScript(r *kit.Rng, hang bool, now time.Duration) string {
 }
 
 func (comp) Gen(r *kit.Rng, maxLen int, tier string) kit.Case {
-	big := r.Chance(45)
+	big := r.Chance(35)
 	hang := !big && r.Chance(10)
 	mb := []int{1, 2, 3, 5, 8, 16}[r.Intn(6)]
 	if big {
